@@ -46,6 +46,11 @@ def step (st : St) (line : String) : St × String :=
     | some k, some o => ({ st with view := some (o.step (if v = "-" then .del k else .set k v)).1 }, "ok")
     | _, _ => (st, "bad-op")
   | ["reset"] => ({ st with s := st.s.reset }, "ok")
+  | ["rollto", h] => match h.toNat? with
+    | some h => (match st.s.resetTo h with
+      | some s' => ({ st with s := s' }, "ok")
+      | none => (st, "nover"))
+    | none => (st, "bad-op")
   -- range iteration lines cover the balance keys (< 100); the other kinds of keys are compared by point reads
   | ["citer"] => (st, showKV (st.s.iter.filter (·.1 < 100)))
   | ["viter"] => match st.view with
